@@ -96,7 +96,8 @@ PrefixDiff(o) ==
          ELSE IF f.valid # last.valid THEN <<"later_side_effect:valid", cut>>
          ELSE IF f.match_count # last.match_count \/ f.scan_count # last.scan_count THEN <<"later_side_effect:counts", cut>>
          ELSE IF f.returned # Take(Case.base.final.returned, o.n) THEN <<"prefix_returned", cut>>
-         ELSE IF f.lines # Take(Case.base.final.lines, o.n) THEN <<"prefix_lines", cut>>
+         \* (a base run that ended in an exception handed no lines to its caller: there is nothing to take a prefix of)
+         ELSE IF Case.base.final.raised = "" /\ f.lines # Take(Case.base.final.lines, o.n) THEN <<"prefix_lines", cut>>
          ELSE <<"ok", 0>>
 
 Step ==
